@@ -142,15 +142,16 @@ def run_reentry():
     inner = []
 
     def function():
-        try:
-            spinner.run(1, lambda: 1)
-        except ReentryError:
-            inner.append("ReentryError")
-        except Exception as e:
-            inner.append(type(e).__name__)
+        for _ in range(2):                # every nested attempt must be refused, not only the first
+            try:
+                spinner.run(1, lambda: 1)
+            except ReentryError:
+                inner.append("ReentryError")
+            except Exception as e:
+                inner.append(type(e).__name__)
         return 3
     out = spinner.run(2, function)
-    ok = inner == ["ReentryError"] and out == 3 and not reactor.getDelayedCalls()
+    ok = inner == ["ReentryError", "ReentryError"] and out == 3 and not reactor.getDelayedCalls()
     # and the spinner is usable afterwards
     ok = ok and spinner.run(2, lambda: 4) == 4
     return ok
@@ -199,7 +200,8 @@ HARNESSES = [
             rule="every path non-trivial",
             fidelity=lambda seed: [(f, d, t, s, e, False, 0, 0) for f in range(5) for d in (0, 2) for t in (1, 2) for s in (0, 1, 4) for e in (0, 2)],
             observe=lambda *a: (lambda o: (o["outcome"], o["problems"]))(run_spin(*a)), describe=run_spin,
-            assumptions=["reactor = VReactor (twisted.internet.task.Clock + run/crash/stop/callWhenRunning/removeAll/iterate; "
+            assumptions=["reactor = VReactor (twisted.internet.task.Clock + run/crash/stop/callWhenRunning/removeAll/iterate; run() installs SIGINT/"
+                         "SIGTERM/SIGCHLD handlers the way the real reactor does; "
                          "getDelayedCalls returns a copy as ReactorBase does)",
                          "a stop request is a delayed call that calls reactor.stop() (what Twisted's signal handlers do)"]),
     Harness("reentry", h_reentry, lambda tier: [({}, 300)],
